@@ -8,6 +8,7 @@ from hypothesis.stateful import RuleBasedStateMachine, initialize, precondition,
 from torchjd import backward, mtl_backward
 from props import c02
 from vlib import jdcheck, programs as P
+from vlib.matrices import eps_of
 from vlib.probes import _same
 from vlib.runner import Outcome, Part
 
@@ -214,6 +215,8 @@ class Exec:
 
 def run_case(case) -> Outcome:
     out = Outcome()
+    if case.get("kind") == "alias":
+        return _run_alias(case, out)
     prog = case["prog"]
     ex = Exec(prog, out)
     if not jdcheck.scale_ok(prog["dtype"], ex.scale):
@@ -306,7 +309,80 @@ def _machine(report):
     return GradHistory
 
 
+@st.composite
+def _alias_case(draw):
+    rng = np.random.default_rng(draw(st.integers(0, 2**32 - 1)))
+    n = int(rng.integers(1, 6))
+    name = ["Constant", "Mean", "UPGrad", "Sum"][int(rng.integers(0, 4))]
+    spec = {"name": name}
+    if name == "Constant":
+        spec["weights"] = [float(rng.integers(-3, 4)) + 0.25, float(rng.integers(-3, 4)) - 0.5]
+    return {"kind": "alias", "seed": int(rng.integers(0, 2**31)), "n": n, "agg": spec, "dtype": ["float32", "float64"][int(rng.integers(0, 2))],
+            "mode": ["same-tensor", "overlapping-views", "adjacent-views"][int(rng.integers(0, 3))],
+            "api": ["backward", "mtl"][int(rng.integers(0, 2))], "k": [None, 1, 2][int(rng.integers(0, 3))]}
+
+
+def _run_alias(case, out):
+    """Two requested tensors whose pre-existing .grad fields share memory (the same tensor, overlapping or adjacent views
+    of one flat buffer - as optimisers with a fused gradient buffer set them up). 'Add to an existing .grad' then means:
+    the buffer receives BOTH contributions, exactly as torch.autograd.backward's in-place accumulation leaves it."""
+    tdt = getattr(torch, case["dtype"])
+    rng = np.random.default_rng(case["seed"])
+    n, mode = case["n"], case["mode"]
+    a = torch.tensor(rng.integers(-4, 5, size=n) / 2.0, dtype=tdt, requires_grad=True)
+    b = torch.tensor(rng.integers(-4, 5, size=n) / 2.0, dtype=tdt, requires_grad=True)
+    c1, c2, c3 = (torch.tensor(rng.integers(-4, 5, size=n) / 2.0, dtype=tdt) for _ in range(3))
+    shift = {"same-tensor": 0, "overlapping-views": max(1, n // 2), "adjacent-views": n}[mode]
+    if mode == "overlapping-views" and n == 1:
+        shift = 0
+    buf = torch.tensor(rng.integers(-6, 7, size=n + shift + 1) / 2.0, dtype=tdt)
+    buf0 = buf.clone()
+    if shift == 0:
+        g = buf[:n]
+        a.grad, b.grad = g, g
+    else:
+        a.grad, b.grad = buf[:n], buf[shift : shift + n]
+    out.cls("aliased-grads:" + mode, "aliased-grads:" + case["api"], case["dtype"])
+    rec = jdcheck.make_recording(case["agg"], case["dtype"])
+    Ja = torch.stack([c1, 2 * a.detach()])
+    Jb = torch.stack([c2, -c3])
+    try:
+        if case["api"] == "backward":
+            y = torch.stack([(a * c1).sum() + (b * c2).sum(), (a**2).sum() - (b * c3).sum()])
+            backward([y], rec, inputs=[a, b], parallel_chunk_size=case["k"])
+        else:
+            f = torch.cat([a, b]) * 1.0
+            l1 = (f[:n] * c1).sum() + (f[n:] * c2).sum()
+            l2 = (f[:n] ** 2).sum() - (f[n:] * c3).sum()
+            mtl_backward([l1, l2], f, rec, tasks_params=[[], []], shared_params=[a, b], parallel_chunk_size=case["k"])
+    except Exception as e:  # noqa: BLE001
+        out.check(False, f"call-raises:{type(e).__name__}", str(e)[:250])
+        return out
+    if not out.check(len(rec.calls) == 1 and tuple(rec.calls[0][0].shape) == (2, 2 * n), "aggregator-call-count", f"{len(rec.calls)} calls"):
+        return out
+    M, r = rec.calls[0]
+    tolJ = 64 * eps_of(case["dtype"]) * max(1.0, float(M.abs().max()))
+    if float((M - torch.cat([Ja, Jb], 1)).abs().max()) <= tolJ:
+        ra, rb = r[:n], r[n:]
+    elif float((M - torch.cat([Jb, Ja], 1)).abs().max()) <= tolJ:
+        rb, ra = r[:n], r[n:]
+    else:
+        out.check(False, "accumulate:jacobian-matrix", f"aggregator saw {M.tolist()}")
+        return out
+    want = buf0.double().clone()
+    want[:n] += ra.double()
+    want[shift : shift + n] += rb.double()
+    ok_obj = a.grad is not None and b.grad is not None and a.grad.data_ptr() == buf.data_ptr() and b.grad.data_ptr() == buf[shift:].data_ptr()
+    out.check(ok_obj, "existing-grad-replaced-instead-of-accumulated", f"{mode}: a .grad no longer lives in the buffer it was given")
+    err = float((buf.double() - want).abs().max())
+    out.within(err, 8 * eps_of(case["dtype"]) * float(want.abs().max() + r.abs().max() + 1), "aliased-grads:contribution-lost",
+               f"{mode}: buffer {buf.tolist()} vs initial + both contributions {want.tolist()}")
+    out.nontrivial = bool((ra != 0).any() and (rb != 0).any())
+    return out
+
+
 def parts(tier):
     n = 480 if tier == "quick" else 10_000
     steps = 12 if tier == "quick" else 30
-    return [Part("histories", "machine", n=n, machine=_machine, steps=steps)]
+    return [Part("histories", "machine", n=n, machine=_machine, steps=steps),
+            Part("aliased_grads", "given", n=600 if tier == "quick" else 20_000, strategy=_alias_case)]
